@@ -247,7 +247,7 @@ impl ClientSim {
     pub fn poll_task_c(&self, t: TaskId, constrained: bool) -> PollOut {
         self.hist.0.cur_task.set(Some(t));
         self.hist.0.poll_seq.set(self.hist.0.poll_seq.get() + 1);
-        self.hist.push(Ev::PollStart { task: t });
+        self.hist.push(Ev::PollStart { task: t, coop: constrained });
         let out = if constrained {
             self.exec.poll(t)
         } else {
@@ -268,7 +268,7 @@ impl ClientSim {
                 format!("Panicked: {m}")
             }
         };
-        self.hist.push(Ev::PollEnd { task: t, out: o, woken: self.exec.is_woken(t) });
+        self.hist.push(Ev::PollEnd { task: t, out: o, woken: constrained || self.exec.is_woken(t) });
         self.collect_wire();
         out
     }
